@@ -3,6 +3,6 @@
 tier=$1; seed=$2; shift 2
 ids=${@:-C01 C02 C03 C04 C05 C06 C07 C08 C09 C10 C11 C12 C13 C14 C15 C16 C17 C18 C19 C20}
 for p in $ids; do
-  out=$(VERIF_SEED=$seed /verif/check $p --tier $tier 2>&1); rc=$?
+  out=$(VERIF_SEED=$seed "$(dirname "$0")"/check $p --tier $tier 2>&1); rc=$?
   echo "SWEEP seed=$seed $p rc=$rc :: $(echo "$out" | grep -E "^(VIOLATION|KNOWN-FINDING)" | head -3 | tr '\n' ' ' | cut -c1-300) $(echo "$out" | tail -1 | cut -c1-120)"
 done
